@@ -169,6 +169,34 @@ def iteration_probe(ctx, mon, v):
                 ctx.violation('iteration-item', {'source': o.describe(), 'k': k, 'item': io.describe()},
                               mech='iter-item')
                 return
+        # second pass: every item is looked at when it is yielded and then edited in place by the loop body (items
+        # are values of their own: what the body does to one must not show in the next, nor in the source)
+        if isinstance(v, L.AnsiString) and o.text:
+            how = len(o.text) % 4
+            try:
+                for k, it in enumerate(v):
+                    io = O.observe(it)
+                    ctx.ev('iteration-item-edited-by-loop-body')
+                    if io.text != o.text[k] or len(io.texts) != 1 or not O.prec_equiv(io.texts[0], o.texts[k]):
+                        ctx.violation('iteration-item-after-editing-earlier-items',
+                                      {'source': o.describe(), 'k': k, 'item': io.describe(), 'edit': how},
+                                      mech='iter-item-edited')
+                        return
+                    if how == 0:
+                        it.apply_formatting('underline')
+                    elif how == 1:
+                        it += L.AnsiString('-', 'blue')
+                    elif how == 2:
+                        it.clear_formatting()
+                    else:
+                        it.ljust(3, inplace=True)
+            except Exception as e:
+                ctx.violation('iteration-raised', {'source': o.describe(), 'error': repr(e), 'edit': how}, mech='iter-raised')
+                return
+            o2 = O.observe(v)
+            if o2.text != o.text or O.first_diff_exact(o.texts, o2.texts) is not None:
+                ctx.violation('iteration-edits-reach-source', {'source': o.describe(), 'after': o2.describe(), 'edit': how},
+                              mech='iter-source-changed')
 
 
 def drive(ctx, mon, tier, only_case=None):
